@@ -132,7 +132,8 @@ FailedRun(v, c, k, o) ==
   IN
   wiring \cup
   IF r.agg THEN
-     (IF plainOf # {} /\ ~AggOK(c, r, ro, o.runs[CHOOSE x \in plainOf : TRUE]) THEN {"C13-aggregate"} ELSE {})
+     (LET per == FindRun(v, LAMBDA x : x.cmd = r.cmd /\ x.anno = r.anno /\ x.append = r.append /\ ~x.agg /\ x.s = r.s /\ x.e = r.e /\ ~x.stdin) IN
+      IF per # {} /\ ~AggOK(c, r, ro, o.runs[CHOOSE x \in per : TRUE]) THEN {"C13-aggregate"} ELSE {})
   ELSE IF r.s # -1 \/ r.e # -1 THEN
      (IF plainOf # {} /\ ~WindowOK(c, r, ro, o.runs[CHOOSE x \in plainOf : TRUE]) THEN {"C15-window-filter"} ELSE {})
      \cup (IF r.cmd = "topa-variants"      \* C11 under a window: the FASTA form of the alignment through variants with the same window
